@@ -7,7 +7,7 @@ use std::process::{Command, Stdio};
 use std::sync::{Arc, Barrier};
 use std::time::{Duration, Instant};
 
-pub const OPS: &[&str] = &["format", "format_flat", "tree_format", "diagnostic_annotated", "hex", "register_tags", "kv_name", "fn_name", "param_name", "kv_store", "fn_store", "param_store"];
+pub const OPS: &[&str] = &["format", "format_flat", "tree_format", "diagnostic_annotated", "hex", "register_tags", "kv_name", "fn_name", "param_name", "kv_store", "fn_store", "param_store", "format_own"];
 
 fn sample_envelopes() -> Vec<Envelope> {
     // built WITHOUT touching any registry (no formatting, no name lookups)
@@ -28,7 +28,12 @@ fn sample_envelopes() -> Vec<Envelope> {
     let ev = |x: CBOR| CBOR::to_tagged_value(TAG_EVENT, x);
     let e8 = Envelope::new(req(req(CBOR::from(1))));
     let e9 = Envelope::new("nested").add_assertion(resp(req(CBOR::from(bc_envelope::functions::ADD))), ev(resp(req(CBOR::from(known_values::NOTE)))));
-    vec![e1, e2, e3, e4, e5, e6, e7, e8, e9]
+    // a leaf that carries a whole (tagged) envelope as its value - formatting descends into it with the context it was given
+    let e10 = Envelope::new("carrier").add_assertion("embedded", e1.tagged_cbor()).add_assertion(e2.tagged_cbor(), "as a predicate");
+    // a deep one (200 wrappers): long-running formatting calls overlap, and whatever counts depth counts it here
+    let mut e11 = Envelope::new("deep").add_assertion("k", "v");
+    for _ in 0..200 { e11 = e11.wrap_envelope(); }
+    vec![e1, e2, e3, e4, e5, e6, e7, e8, e9, e10, e11]
 }
 
 fn fnv(s: &str) -> u64 { let mut h = 0xcbf29ce484222325u64; for b in s.bytes() { h ^= b as u64; h = h.wrapping_mul(0x100000001b3); } h }
@@ -44,6 +49,9 @@ pub fn run_op(op: &str, e: &Envelope) -> String {
         "kv_name" => { let b = known_values::KNOWN_VALUES.get(); b.as_ref().unwrap().name(known_values::NOTE) }
         "fn_name" => { let b = bc_envelope::extension::expressions::GLOBAL_FUNCTIONS.get(); b.as_ref().unwrap().name(&bc_envelope::functions::ADD) }
         "param_name" => { let b = bc_envelope::extension::expressions::GLOBAL_PARAMETERS.get(); b.as_ref().unwrap().name(&bc_envelope::parameters::LHS) }
+        // formatting with a context of the caller's own (a copy of the global one, taken under its lock; the formatting itself
+        // then runs without any lock, side by side with everything else)
+        "format_own" => { let own = bc_envelope::with_format_context!(|ctx: &bc_envelope::FormatContext| ctx.clone()); format!("{}|{}", e.format_opt(Some(&own)), e.tree_format_opt(false, Some(&own))) }
         // every lookup door of a registry store, under one guard (registered and unregistered values, both directions)
         "kv_store" => {
             use bc_envelope::extension::known_values::KnownValuesStore;
@@ -120,6 +128,7 @@ pub fn stress_one_focus(threads: usize, seed: u64, warm: bool, calls: usize, for
     // reference it got from the store borrows from that guard); steady-state formatting needs no registry, so this completes
     let guard_formatter = forced_focus.as_deref() == Some("guardfmt") || (warm && threads >= 2 && seed % 8 == 6);
     if guard_formatter { println!("note guard-formatter-role"); }
+    let own_formatters = forced_focus.as_deref() == Some("ownfmt");
     for t in 0..threads {
         let (es, barrier) = (es.clone(), barrier.clone());
         hs.push(std::thread::spawn(move || {
@@ -144,6 +153,17 @@ pub fn stress_one_focus(threads: usize, seed: u64, warm: bool, calls: usize, for
                     n
                 });
                 out.push(match r { Ok(_) => format!("note {} held-known-values-guard", t), Err(_) => format!("panic {} kv-holder 0", t) });
+            }
+            if own_formatters {
+                // every thread formats the deep sample with a context of its own, over and over: no lock is held while they run
+                let deep = es.len() - 1;
+                for call in 0..calls * 3 {
+                    let i = if call % 4 == 3 { rng.below(es.len()) } else { deep };
+                    let op = if call % 5 == 4 { "format" } else { "format_own" };
+                    let r = std::panic::catch_unwind(|| run_op_bytes(op, &es[i]));
+                    match r { Ok(text) => out.push(format!("call {} {} {} {:016x}", t, op, i, fnv(&text))), Err(_) => out.push(format!("panic {} {} {}", t, op, i)) }
+                }
+                return out;
             }
             if guard_formatter && t == threads - 1 {
                 for call in 0..calls {
@@ -280,6 +300,7 @@ pub fn campaign(outdir: &str, seed: u64, thorough: bool) {
     for op in OPS { for rep in 0..reps { for threads in [2usize, 8] { let _ = rep; plan.push((threads, false, rng.next() | 7, Some(op.to_string()))); } } }
     for rep in 0..(reps * 2) { plan.push(([2usize, 3, 8][rep % 3], false, rng.next(), Some("holder".to_string()))); }
     for rep in 0..(reps * 2) { plan.push(([2usize, 4, 8][rep % 3], true, rng.next(), Some("guardfmt".to_string()))); }
+    for rep in 0..(reps * 2) { plan.push(([4usize, 8, 16][rep % 3], rep % 2 == 0, rng.next(), Some("ownfmt".to_string()))); }
     for r in 0..rounds { plan.push(([2usize, 3, 4, 8, 16][r % 5], r % 3 == 2, rng.next(), None)); }
     for (threads, warm, s, focus) in plan {
         // three runs that never finished are enough to report; every further one costs a full watchdog period
